@@ -2519,18 +2519,21 @@ class PGPKey(Armorable, ParentRef, PGPObject):
                 if sig.signer in _ids:
                     yield sig
 
+        def _signed_octets(msg):
+            # what a signature over a message covers: the same conversion as in sign()
+            if msg.type == 'cleartext':
+                return msg.cleartext_signed_text
+
+            if msg.type == 'literal':
+                return bytes(msg._message._contents)
+
+            return msg.message
+
         # collect signature(s)
         if signature is None:
             if isinstance(subject, PGPMessage):
                 for sig in _filter_sigs(subject.signatures):
-                    if subject.type == 'cleartext':
-                        sspairs.append((sig, subject.cleartext_signed_text))
-
-                    elif subject.type == 'literal':
-                        sspairs.append((sig, bytes(subject._message._contents)))
-
-                    else:
-                        sspairs.append((sig, subject.message))
+                    sspairs.append((sig, _signed_octets(subject)))
 
             if isinstance(subject, (PGPUID, PGPKey)):
                 sspairs += [ (sig, subject) for sig in _filter_sigs(subject.__sig__) ]
@@ -2551,7 +2554,9 @@ class PGPKey(Armorable, ParentRef, PGPObject):
                         sspairs.append((sig, subkey))
 
         elif signature.signer in {self.fingerprint.keyid} | set(self.subkeys):
-            sspairs += [(signature, subject)]
+            # a detached signature over a message covers the message text, like one carried inside it; handing the
+            # PGPMessage on would have hashdata() iterate its packets (nothing at all for an unsigned cleartext message)
+            sspairs += [(signature, _signed_octets(subject) if isinstance(subject, PGPMessage) else subject)]
 
         if len(sspairs) == 0:
             raise PGPError("No signatures to verify")
